@@ -47,17 +47,28 @@ def is_param(v, i):
 
 # ----------------------------------------------------------------------------------------
 def check_object_eq(F, rep, rule, heap_types):
-    """Object equality, read per path: which tag relation the path established and what it returns.  The spelling of the
-    tests (`!=` early return, `==` with else, `match`) and helpers the arms were moved into do not matter."""
-    from rules.unsafe_inv import tag_facts
+    """Object equality, read per path: what the path knows about the two tags when it answers, and what it answers.
+    An answer is right when
+      - `false` is given only where the two tags are known to differ,
+      - the two words are compared only where the value is an immediate (the tag is part of the word and the encoding is
+        injective, so equal words <=> equal values; arrays: identity, unspecified) - never for a float (NaN != NaN although
+        the words are equal) or a string (equal contents in different allocations),
+      - payloads are compared (by content) only where both tags are known to be that payload's type.
+    The spelling of the tests (`!=` early return, `==` with else, `&&`, `match`), their order, and helpers the arms were moved
+    into do not matter."""
+    from rules.c05 import _tag_atoms
+    from rules.unsafe_inv import same
     name = '<object::Object as core::cmp::PartialEq>::eq'
     fn = F.fn(name)
     ai = AbsInt(F, fn)
     paths = ai.run()
     PAYLOAD = ('object::Object::as_f64', 'object::Object::as_str', 'object::Object::as_vec', 'object::Object::get', 'object::Float::read', 'object::Array::read')
+    tyvars = [n for n, _ in F.enum_variants(TYPE)]
+    ALL = frozenset(tyvars)
+    S, O = ('obj', 'param*', 1), ('obj', 'param*', 2)
+    unsupported = []       # answers the tags do not support
     differ_paths = 0
     differ_ok = True
-    early = []
     seen = {}
     for p in paths:
         rel = None      # True: tags known equal, False: known different
@@ -70,56 +81,92 @@ def check_object_eq(F, rep, rule, heap_types):
                 if a0[0] == 'call' and a0[1] == 'object::Object::tag' and a1[0] == 'call' and a1[1] == 'object::Object::tag':
                     rel = truth(c) != v[1].endswith('ne')
                     break
-        if rel is None and p.exit == 'return':
-            # an answer given before the two tags were compared (e.g. `if self.0 == other.0 { return true }`): equal words are not
-            # equal values for every type (a NaN float is not equal to itself), different words are not different values (strings)
-            early.append(show(p.env.get('_0'))[:40])
+        poss = {1: set(ALL), 2: set(ALL)}
+        for o_, ty, tv in _tag_atoms(p, p.env):
+            for i, who in ((1, S), (2, O)):
+                if same(o_, who) or o_ == ('obj', 'param', i):
+                    if isinstance(ty, tuple):
+                        poss[i] &= set(ty[1])
+                    elif tv:
+                        poss[i] &= {ty}
+                    else:
+                        poss[i] -= {ty}
+        if rel is True:
+            poss[1] = poss[2] = poss[1] & poss[2]
+        differ = rel is False or not (poss[1] & poss[2])
+        if p.exit != 'return':
+            for var in (sorted(poss[1]) if len(poss[1]) == 1 else []):
+                seen.setdefault(var, []).append((p, 'diverges', True, ''))
             continue
-        if rel is False:
+        r = p.env.get('_0')
+        if differ:
             differ_paths += 1
-            if not (p.exit == 'return' and p.env.get('_0') == ('int', 0, 'bool')) or any(c[1].startswith(PAYLOAD) for c in p.calls):
+            if r != ('int', 0, 'bool') or any(c[1].startswith(PAYLOAD) for c in p.calls):
                 differ_ok = False
             continue
-        vs = sorted({ty for o_, ty in tag_facts(p)}) or [v_ for _, v_ in variant_constraints(p)][:1]
-        for var in vs[:1]:
-            seen.setdefault(var, []).append((p, rel))
-    rep.ob(not early, rule, name, 'no answer before the tags are compared', 'every returning path has compared the two tags first; paths that return earlier give: %s' % early[:3], fn.loc())
-    rep.ob(differ_paths >= 1 and differ_ok, rule, name, 'tag comparison first', 'differing tags return false before any payload is looked at', fn.loc())
-    tyvars = [n for n, _ in F.enum_variants(TYPE)]
+        # what is answered, and whether the tags established on the path allow that answer
+        kind, ok, why = 'other', False, show(r)[:80]
+        a = b = None
+        if is_binop(r, 'Eq') and r[4] != 'f64':
+            a, b = r[2], r[3]
+        elif r and r[0] == 'call' and r[1].endswith('ptr::eq') and len(r[2]) == 2:
+            a, b = r[2]          # the word is a pointer-sized value: address comparison is word comparison
+        if r == ('int', 0, 'bool'):
+            kind, ok, why = 'false', False, 'answers false although the tags are not known to differ'
+        elif r == ('int', 1, 'bool'):
+            kind, ok, why = 'true', False, 'answers true without comparing anything'
+        elif a is not None and ((is_param_word(a, 1) and is_param_word(b, 2)) or (is_param_word(a, 2) and is_param_word(b, 1))):
+            kind = 'word'
+            imm = (ALL - set(heap_types)) | {'Array'}
+            ok = poss[1] <= imm or poss[2] <= imm
+            why = 'words compared where the value may be %s' % sorted((poss[1] & poss[2]) - imm)
+        elif is_binop(r, 'Eq') and r[4] == 'f64':
+            kind = 'Float'
+            x, y = r[2], r[3]
+            ok = x[0] == 'call' and y[0] == 'call' and x[1].startswith('object::Object::as_f64') and y[1].startswith('object::Object::as_f64') \
+                and {1, 2} == {i for i in (1, 2) for z in (x, y) if is_param(deref(p.env, z[2][0]), i)} and poss[1] == poss[2] == {'Float'}
+            why = 'float payloads compared where the tags may be %s / %s' % (sorted(poss[1]), sorted(poss[2]))
+        elif r and r[0] == 'call' and 'PartialEq' in r[1]:
+            kind = 'String'
+            args = [deref(p.env, deref(p.env, z)) for z in r[2]]
+            ok = all(z[0] == 'call' and z[1].startswith('object::Object::as_str') for z in args) and len(args) == 2 \
+                and {1, 2} == {i for i in (1, 2) for z in args if is_param(deref(p.env, z[2][0]), i)} and poss[1] == poss[2] == {'String'}
+            why = 'string payloads compared where the tags may be %s / %s' % (sorted(poss[1]), sorted(poss[2]))
+        known = poss[1] if len(poss[1]) == 1 else poss[2] if len(poss[2]) == 1 else None
+        if known is None:
+            # the path answers without knowing the type of either side
+            if not ok:
+                unsupported.append('%s (self may be %s)' % (show(r)[:40], '|'.join(sorted(poss[1]))))
+            else:
+                for var in sorted(poss[1] & poss[2]):
+                    seen.setdefault(var, []).append((p, kind, ok, why))
+            continue
+        for var in sorted(known):
+            seen.setdefault(var, []).append((p, kind, ok, why))
+    rep.ob(not unsupported, rule, name, 'no answer before the tags are compared',
+           'every answer rests on what the path knows about the two tags; answers given without that: %s' % unsupported[:3], fn.loc())
+    rep.ob(differ_ok, rule, name, 'tag comparison first', 'where the tags are known to differ the answer is false and no payload is looked at (%d paths)' % differ_paths, fn.loc())
     for var in tyvars:
         ps = seen.get(var, [])
         if not ps:
             rep.bad(rule, name, 'arm ' + var, 'no path for Type::%s' % var, fn.loc())
             continue
-        for p, rel in ps:
-            if p.exit != 'return':
+        for p, kind, ok, why in ps:
+            if kind == 'diverges':
                 # diverging arm (unimplemented!) — not an equality answer; totality is C05's business
                 rep.good(rule, name, 'arm %s (diverges)' % var, 'no comparison made (reported under C05)', fn.loc(), nontrivial=False)
                 continue
             r = p.env.get('_0')
-            ok = False
             if var == 'Array':
                 # equality of arrays is unspecified (DESIGN 4.3 item 5): any non-crashing answer is accepted here
                 rep.good(rule, name, 'arm Array (unspecified)', 'returns %s' % show(r)[:80], fn.loc(), nontrivial=False)
                 continue
             if var in heap_types:
-                if is_binop(r, 'Eq') and r[4] == 'f64':
-                    a, b = r[2], r[3]
-                    ok = a[0] == 'call' and b[0] == 'call' and a[1].startswith('object::Object::as_f64') and b[1].startswith('object::Object::as_f64') \
-                        and {1, 2} == {i for i in (1, 2) for x in (a, b) if is_param(deref(p.env, x[2][0]), i)}
-                elif r and r[0] == 'call' and 'PartialEq' in r[1]:
-                    args = [deref(p.env, deref(p.env, a)) for a in r[2]]
-                    ok = all(a[0] == 'call' and a[1].startswith('object::Object::as_str') for a in args) and len(args) == 2 \
-                        and {1, 2} == {i for i in (1, 2) for a in args if is_param(deref(p.env, a[2][0]), i)}
+                ok2 = ok and kind == var
+                rep.ob(ok2, rule, name, 'arm ' + var, 'heap payloads are compared by content: ' + (show(r) if ok2 else why), fn.loc())
             else:
-                a = b = None
-                if is_binop(r, 'Eq'):
-                    a, b = r[2], r[3]
-                elif r and r[0] == 'call' and r[1].endswith('ptr::eq') and len(r[2]) == 2:
-                    a, b = r[2]          # the word is a pointer-sized value: address comparison is word comparison
-                ok = a is not None and ((is_param_word(a, 1) and is_param_word(b, 2)) or (is_param_word(a, 2) and is_param_word(b, 1)))
-            rep.ob(ok, rule, name, 'arm ' + var,
-                   ('heap payloads are compared by content' if var in heap_types else 'immediates are compared by word') + ': ' + show(r), fn.loc())
+                ok2 = ok and kind == 'word'
+                rep.ob(ok2, rule, name, 'arm ' + var, 'immediates are compared by word: ' + (show(r) if ok2 else why), fn.loc())
 
 
 # ----------------------------------------------------------------------------------------
@@ -262,8 +309,11 @@ def check_float_casts(ctx, rep, rule):
                 ordn += 1
                 val = psc.strip(psc.sym(fn, st['rv']['op']))
                 lo = hi = False
-                for f in psc.facts_at(fn, b):
-                    if f[0] in ('Gt', 'Ge', 'Lt', 'Le') and not (len(f) > 5 and f[5]):      # only comparisons that came out true exclude NaN
+                facts_ = psc.facts_at(fn, b)
+                # `v.is_nan()` came out false: from here on a false `v <= lo` does mean `v > lo`
+                not_nan = any(f[0] == 'callbool' and f[1][1].endswith('::is_nan') and f[2] is False and psc.strip(psc.unref(f[1][2][0])) == val for f in facts_)
+                for f in facts_:
+                    if f[0] in ('Gt', 'Ge', 'Lt', 'Le') and (not_nan or not (len(f) > 5 and f[5])):      # only comparisons that came out true exclude NaN
                         a, c = psc.strip(f[1]), psc.strip(f[2])
                         if a == val and f[0] in ('Gt', 'Ge'):
                             lo = True
